@@ -25,8 +25,8 @@ from sim.driver import VERIF, import_formulaic_checked
 PROPERTY = "C18"
 
 TIERS = {
-    "quick": {"runs": 1100, "chunk": 24, "budget_s": 80, "run_timeout_s": 120, "shrink_s": 45, "chunk_timeout_s": 600},
-    "thorough": {"runs": 16000, "chunk": 24, "budget_s": 900, "run_timeout_s": 120, "shrink_s": 150, "chunk_timeout_s": 1800, "interrupt": True},
+    "quick": {"runs": 1100, "chunk": 24, "budget_s": 80, "run_timeout_s": 400, "shrink_s": 45, "chunk_timeout_s": 1200},
+    "thorough": {"runs": 16000, "chunk": 24, "budget_s": 900, "run_timeout_s": 400, "shrink_s": 150, "chunk_timeout_s": 3000, "interrupt": True},
 }
 
 RULE = (
